@@ -1,5 +1,5 @@
 """Shared machinery for /verif/bin/check and /verif/bin/setup (Python 3 stdlib only)."""
-import hashlib, json, os, re, shutil, subprocess, sys, time, glob, atexit, random
+import hashlib, json, os, re, shutil, subprocess, sys, time, glob, atexit, random, threading
 
 VERIF = os.path.dirname(os.path.dirname(os.path.abspath(__file__)))
 REPO = os.environ.get("VERIF_REPO", "/repo")
@@ -16,12 +16,17 @@ REPLAYS = os.path.join(_OUT, "replays")
 GOENV = dict(os.environ, GOFLAGS="-mod=mod", GOPROXY="off", GOSUMDB="off", GOTOOLCHAIN="local", CGO_ENABLED="1")
 
 _scratch = None
+_scratch_lock = threading.Lock()
 def scratch():
+    """Per-process scratch directory (removed at exit).  Stages run shards in threads: the directory exists before any
+    caller can see its name."""
     global _scratch
-    if _scratch is None:
-        _scratch = "/var/tmp/.bbchk-%d-%06x" % (os.getpid(), random.randrange(1 << 24))
-        os.makedirs(_scratch, exist_ok=True)
-        atexit.register(lambda: shutil.rmtree(_scratch, ignore_errors=True))
+    with _scratch_lock:
+        if _scratch is None:
+            d = "/var/tmp/.bbchk-%d-%06x" % (os.getpid(), random.randrange(1 << 24))
+            os.makedirs(d, exist_ok=True)
+            atexit.register(lambda: shutil.rmtree(d, ignore_errors=True))
+            _scratch = d
     return _scratch
 
 def sh(cmd, cwd=None, env=None, timeout=1200, inp=None):
